@@ -58,14 +58,14 @@ ExprProgram(e) == Program(Q1, <<>>, <<>>, <<App("rz", <<e>>, <<QA("q", 0)>>)>>)
 \* ------------------------------------------------------------------ family "bind"
 Formals == {Var(1), Var(2)}
 BAtoms == Formals \cup {Num(2, 0, FALSE), Pi}
-B1 == {MkBin(k, x, y) : k \in {"add", "sub", "mul", "div"}, x \in BAtoms, y \in BAtoms}
+B1 == {MkBin(k, x, y) : k \in {"add", "sub", "mul", "div", "pow"}, x \in BAtoms, y \in BAtoms}
 B2 == {MkBin(k, x, Par(b)) : k \in {"sub", "mul", "div"}, x \in Formals, b \in {c \in B1 : c.k \in {"add", "sub"}}}
       \cup {MkBin(k, Par(b), y) : k \in {"mul", "div"}, y \in {Num(2, 0, FALSE)}, b \in {c \in B1 : c.k \in {"add", "sub"}}}
       \cup {Neg(Par(b)) : b \in {c \in B1 : c.k \in {"add", "sub"}}}
       \cup {Neg(x) : x \in Formals}
 Actuals == IF Size = 0
-           THEN {<<Neg(Par(MkBin("add", Num(1, 0, FALSE), Num(2, 0, FALSE)))), MkBin("div", Pi, Num(4, 0, FALSE))>>}
-           ELSE {<<Num(1, 0, FALSE), MkBin("div", Pi, Num(4, 0, FALSE))>>, <<Neg(Par(MkBin("add", Num(1, 0, FALSE), Num(2, 0, FALSE)))), Num(25, -2, FALSE)>>,
+           THEN {<<Neg(Num(3, 0, FALSE)), MkBin("div", Pi, Num(4, 0, FALSE))>>}
+           ELSE {<<Neg(Num(3, 0, FALSE)), MkBin("div", Pi, Num(4, 0, FALSE))>>, <<Num(1, 0, FALSE), MkBin("div", Pi, Num(4, 0, FALSE))>>, <<Neg(Par(MkBin("add", Num(1, 0, FALSE), Num(2, 0, FALSE)))), Num(25, -2, FALSE)>>,
                  <<MkBin("sub", Pi, Num(1, 0, FALSE)), Num(3, 0, FALSE)>>, <<Num(5, -1, FALSE), Neg(Pi)>>}
 G0Of(b) == [name |-> "g0", np |-> 2, nq |-> 1, body |-> <<BodySt("rz", <<b>>, <<1>>)>>]
 \* a gate whose body calls g0 with expressions over its own formal, on its second qubit
